@@ -20,20 +20,28 @@ PROP = Property(
                   "extracted text of the decision procedure (num-integer backend): taylor_comparison(bound, cmp, x) with x = 0 and cmp >= 1 returns false for EVERY bound (loop with inductive invariant over exact rational "
                   "arithmetic); is_lottery_won(phi_f, ev, 0, total) is false for every draw value, every total > 0 and every phi_f that is not 1 (zero stake always loses); phi_f = 1 ==> won",
                   ["is_lottery_won", "taylor_comparison"]),
+        VerusUnit("draw_monotone", "verus/C08/draw_monotone.tmpl.rs",
+                  "ADVISORY unit, extracted text of the decision procedure: the real taylor_comparison loop computes decide(x, 0, bound, cmp) = 'the first iteration at which cmp leaves [lo_k(x), hi_k(x)] decides, undecided after bound iterations = lost' "
+                  "(lo_k / hi_k functions of x only, defined with the operator specifications the loop uses); lemma: decide is monotone in cmp (induction; only transitivity of the rational order); lemma: for every phi_f, stake and total > 0 "
+                  "a SMALLER DRAW VALUE NEVER TURNS WON INTO LOST (is_lottery_won is monotone in ev)",
+                  ["is_lottery_won", "taylor_comparison"], advisory=True),
     ],
     replays=[dict(crate="mithril-stm", file=EL, module="replays/c08_eligibility.rs"),
              dict(crate="mithril-stm", file="mithril-stm/src/proof_system/concatenation/signer.rs", module="replays/c08_lottery.rs"),
              dict(crate="mithril-stm", file="mithril-stm/src/proof_system/concatenation/single_signature.rs", module="replays/c01_sig.rs")],
     assumptions=[
-        "PARTIAL: the boundary clauses phi_f = 1 (always won) and stake = 0 (always lost), and the clause 'identical decision for signer and verifier' are decided",
+        "PARTIAL: the boundary clauses phi_f = 1 (always won) and stake = 0 (always lost), monotonicity in the DRAW VALUE, and the clause 'identical decision for signer and verifier' are decided",
+        "draw_monotone is an ADVISORY unit: its intermediate specification (the loop state after k iterations) mirrors the loop's arithmetic, which the property does not prescribe; a change of that arithmetic makes the loop invariant fail "
+        "without breaking monotonicity, so a failure of this unit is reported as a violation only if the replay scenarios (byte-wise refinement of the 512-bit draw space around the flip, 6 parameter sets) reproduce a flip on the real code, "
+        "otherwise as undecided; on the unchanged tree the unit is a complete proof of the clause (all draws, all stakes and totals, any phi_f); nonlinear integer arithmetic only inside three small lemmas (by(nonlinear_arith))",
         "zero_stake unit: num_rational::Ratio<BigInt> / num_bigint::BigInt are specified EXACTLY as fractions n/d and integers (every operator contract gives a representative of the exact result; zero is kept as 0/1 and x + 0 as x - "
         "the library normalises anyway and comparisons are by cross-multiplication, so the representative does not matter); that the num crates implement exact arithmetic is assumed; the f64 test |phi_f - 1| < EPSILON, "
         "f64 ln + Ratio::from_float and the constant 2^512 are contract fns (ln's value is irrelevant for zero stake: it is multiplied by 0); `a += b` is rewritten to `a = a + b`, `for _ in` to a named loop variable, One::one() to the "
         "typed constructor; total_stake > 0 is a precondition (a closed registration has a positive total stake)",
         "is_lottery_won is one function called by both sides; in the Verus units it is an uninterpreted function of (phi_f, draw, stake, total) - its determinism is that of num-bigint/num-rational/f64::ln (assumed)",
-        "exactness of the Taylor evaluation against 1-(1-phi_f)^(stake/total), and monotonicity in stake and draw are NOT decided: they go through f64::ln, Ratio::from_float and unbounded rational arithmetic, for which neither verifier has a theory (Verus: no exp/ln; CBMC: BigInt loops do not terminate symbolically); the error factor 3 in taylor_comparison is only a valid tail bound for x <= 2, i.e. phi_f <= 1 - e^-2 (hand analysis, DESIGN.md)",
+        "exactness of the Taylor evaluation against 1-(1-phi_f)^(stake/total), and monotonicity in the STAKE are NOT decided: they go through f64::ln, Ratio::from_float and unbounded rational arithmetic, for which neither verifier has a theory (Verus: no exp/ln; CBMC: BigInt loops do not terminate symbolically); the error factor 3 in taylor_comparison is only a valid tail bound for x <= 2, i.e. phi_f <= 1 - e^-2 (hand analysis, DESIGN.md)",
         "the rug back end (not built by default) is not covered",
     ],
     explanation="Partial: the zero-stake clause by Verus on the extracted decision procedure with exact rational arithmetic (loop invariant, any iteration bound); the phi_f = 1 clause by a loop-free Kani harness over the full input domain; signer/verifier agreement by Verus on the extracted text of both loops against one uninterpreted lottery predicate.",
-    not_decided=["exactness vs the real-valued threshold", "monotonicity in stake / draw", "numerically negligible band"],
+    not_decided=["exactness vs the real-valued threshold", "monotonicity in the stake", "numerically negligible band"],
 )
